@@ -153,7 +153,7 @@ def bloch_redfield_tensor(
             # Compressing the QobjEvo will lower the number of parts.
             R.compress()
         evec = H_transform.as_Qobj()
-        R = sprepost(evec, evec.dag()) @ R @ sprepost(evec.dag(), evec)
+        R = sprepost(evec.dag(), evec) @ R @ sprepost(evec, evec.dag())
         for (a_op, spectra) in a_ops:
             if isinstance(spectra, FermionicEnvironment):
                 R += brcrossterm(
